@@ -46,6 +46,8 @@ func init() {
 		MinRuns:    50,
 		Exec:       runC18,
 		PanicClass: kit.PanicInRepo("queue-panic"),
+		// reach probes every batch is expected to hit (listed in the evidence as probes_never_hit otherwise)
+		ExpectedProbes: []string{"delivery after cancel", "delivery after expiry", "delivery after revoke", "delivery from the previous session", "empty blocks completed without a fetch", "importer woken from Results(true)", "late delivery matched against a newer request", "partial then completed by other peer", "range completed during the fault phase", "request cancelled while in flight", "request expired while in flight", "request revoked while in flight", "reservation skipped: peer lacks the hashes", "result batch capped at maxResultsProcess", "throttled"},
 	})
 }
 
